@@ -1,11 +1,11 @@
 SPECIFICATION Spec
 CONSTANTS
-  Sizes <- MC_SmallSizes
+  Sizes <- MC_SmallqSizes
   Lays <- MC_SmallLays
   Modes = {"r", "w", "a", "r+", "w+", "a+", "tmp", "out", "in"}
-  RCounts = {0, 1, 2, 7}
+  RCounts = {0, 2, 7}
   WCounts = {0, 2, 6}
-  SOffs <- MC_SmallSOffs
+  SOffs <- MC_SmallqSOffs
   VBufs = {"no", "full"}
   MFmts <- MC_SmallFmts
   VSizes = {0}
